@@ -279,10 +279,8 @@ func (h *harness) concCase(r *rng, name string, nops int) {
 					seen[string(k)] = true
 				}
 			case 4:
-				if fsName != "mem" {
-					bk++
-					db.Backup(fmt.Sprintf("%s-bk%d", dir, bk))
-				}
+				bk++
+				db.Backup(fmt.Sprintf("%s-bk%d", dir, bk))
 			case 5:
 				db.FileSize()
 			case 6:
